@@ -17,10 +17,10 @@ from . import c12_model as M
 PID = 'C12'
 
 TIERS = {
-    'quick': {'files': 24, 'multiconf': 6, 'f3': 80, 'f5': 40, 'f6': 'all', 'opt_every': 3,
+    'quick': {'files': 24, 'multiconf': 6, 'f3': 80, 'f5': 40, 'f6': 'all', 'f9': 40, 'opt_every': 3,
               'chunk': 160, 'max_min': 3},
-    'thorough': {'files': 64, 'multiconf': 14, 'f3': 'all', 'f5': 300, 'f6': 'all', 'opt_every': 1,
-                 'chunk': 400, 'max_min': 5},
+    'thorough': {'files': 64, 'multiconf': 14, 'f3': 'all', 'f5': 300, 'f6': 'all', 'f9': 400, 'opt_every': 1,
+                 'chunk': 400, 'max_min': 5, 'full': 260},
 }
 OPTION_SETS = ([], ['--protonate-all'], ['-k'])
 DELIVERIES = ('path', 'stream', 'cli')
@@ -117,6 +117,7 @@ def build_jobs(base, wl, tier, cfg, log):
     files = {}
     cases = []
     exhaustive = {}
+    full_ids = []
     for inp, recs, n, _ in [(c[0], c[1], c[2], None) for c in chosen] + \
             [(m[0], m[1], m[2], None) for m in multis]:
         fid = inp['id']
@@ -134,6 +135,29 @@ def build_jobs(base, wl, tier, cfg, log):
         # the unfaulted file itself (base sanity: the model must agree with it)
         for d in DELIVERIES:
             cases.append([fid, ['F0'], d, []])
+    # thorough: the complete regression structures, losses at residue boundaries
+    if tier.get('full'):
+        for inp in workload.full_structures(driver.REPO):
+            recs = M.split_records(inp['text'])
+            n = len(M.atom_indices(recs))
+            if n < 500:
+                continue
+            fid = inp['id']
+            files[fid] = {'text': inp['text'], 'stem': inp['stem'],
+                          'census': not M.multi_conformation(recs)}
+            b = M.residue_bounds(recs)
+            fl = [('F1', k) for k in b[1:-1]] + [('F4', k) for k in b[1:-1]]
+            pairs = [(b[i], b[j]) for i in range(len(b)) for j in range(i + 1, len(b))
+                     if b[j] - b[i] < n]
+            fl = rng.sample(fl, min(len(fl), tier['full']))
+            fl += [('F6', a, c) for a, c in rng.sample(pairs, min(len(pairs), tier['full']))]
+            fl += [('F7', a, c) for a, c in rng.sample(pairs, min(len(pairs), tier['full'] // 2))]
+            fl += [('F2', rng.randrange(n)) for _ in range(tier['full'])]
+            fl += [('F3', rng.randrange(n - 20), rng.randrange(2, 17)) for _ in range(tier['full'] // 2)]
+            exhaustive[fid] = {'records': n, 'sampled': True}
+            for k, fault in enumerate(fl):
+                cases.append([fid, list(fault), DELIVERIES[k % 3], OPTION_SETS[k % 3 if k % 5 == 0 else 0]])
+            full_ids.append(fid)
     # rejection clause: unknown file types and the accepted upper-case suffix
     some = chosen[0][0]
     for name, bad in REJECTION_CASES:
@@ -152,7 +176,7 @@ def build_jobs(base, wl, tier, cfg, log):
         part = cases[a:a + chunk]
         used = {c[0] for c in part}
         jobs.append({'files': {f: files[f] for f in used}, 'cases': part})
-    return jobs, files, exhaustive, [c[0]['id'] for c in chosen], [m[0]['id'] for m in multis]
+    return jobs, files, exhaustive, [c[0]['id'] for c in chosen] + full_ids, [m[0]['id'] for m in multis]
 
 
 # ------------------------------------------------------------------ minimise
@@ -419,7 +443,10 @@ def main(argv=None):
                          'F3 lost blocks of 2-16 records at every position (all in thorough, seeded sample in '
                          'quick); F5 two or three independent losses (seeded sample); F6 every run of consecutive '
                          'whole residues lost and F7 only a window of consecutive whole residues surviving '
-                         '(every pair of residue boundaries). Cases are distinct by '
+                         '(every pair of residue boundaries); F8 periodic loss of every p-th block of b records '
+                         '(b in 1,2,4,8; p in 2,3,5; every phase); F9 independent loss of each record with rate '
+                         '0.02-0.9 (seeded sample). Thorough adds the complete regression structures '
+                         'with sampled F1/F2/F3/F4/F6/F7. Cases are distinct by '
                          'sha256(faulted text, options, delivery); a case is trivial if every lost record is one '
                          'the reader ignores anyway (ignorable residue, hydrogen without -k) or nothing is lost.'),
                 'samples': samples,
